@@ -284,7 +284,7 @@ func zzC20(chainLen int) {
 		hops[i] = zz.Choose(hNumHops)
 	}
 	id := t + "/" + uNames[c] + "/" + hNames[hops[0]]
-	if t == "item-assign-target" && (c == uStringEmpty || c == uStringABC || c == uStringNumeral || c == uSliceEmpty) {
+	if t == "item-assign-target" && (c == uStringEmpty || c == uStringABC || c == uStringNumeral || c == uSliceEmpty || c == uSliceNilTyped || c == uMapNilTyped) {
 		// the store must re-bind its target (string rebuild, append at len):
 		// whether that is possible depends on the target expression being an
 		// l-value, not on the value's provenance
